@@ -22,12 +22,20 @@
        the renamed output list with the same strings and the mapped atom order PROVIDED the atom / bond token functions
        of the two sides agree on the tokens that are written (section 12).
 
-   What is NOT proved (the goal is stated as [smiles_invariant_discrete_goal] below, not as a theorem): that the whole
-   written string and atom order are invariant - the agreement of the atom / bond token functions (`_format_atom` with the
-   stereo marks, `_format_bond` with the cis/trans map: the sign algebra of C12) is a HYPOTHESIS of section 12, the pieces are
-   not yet composed into `component` / `components` / `smiles_text`, and the BFS labels are
-   only shown equivariant for renumberings that keep the neighbour insertion order (independence of the BFS distances
-   from the neighbour order needs the shortest-path characterisation of the BFS, not proved). *)
+     - composed (section 13): one component, the loop over the components and `smiles_text` (text + CXSMILES suffix + written
+       order) are equivariant CONDITIONAL on the agreement of `_format_atom` / `_format_bond` of the two sides
+       ([smiles_text_ren]); the condition is discharged when no stereo mark and no atom-map number is written:
+       [smiles_invariant_discrete_nostereo] (format(mol, '!s'), any molecule) and [smiles_invariant_discrete_unlabelled]
+       (str(mol) of a molecule without stereo labels), and with the weights of the Morgan model
+       [canonical_nostereo_string_invariant].
+
+   What is NOT proved (the full goal is stated as [smiles_invariant_discrete_goal] below, not as a theorem):
+     * the agreement of the token functions when stereo marks are written (`_format_atom` stereo part, `__ct_map`: the sign
+       algebra of C12 applied to the renamed neighbour lists) - it stays a hypothesis of [smiles_text_ren];
+     * renumberings that also change the insertion order of atoms / neighbours (the BFS labels are shown equivariant only
+       for remap()-like renumberings; independence of the BFS distances from the neighbour order needs the shortest-path
+       characterisation of the BFS) - for those only the start atom and the children order are theorems (sections 3, 4, 7);
+     * anything when weights tie. *)
 From Coq Require Import ZArith List String Bool Lia Permutation Sorting.Sorted.
 From Model Require Import PyBase PyHash Graph Morgan Writer.
 From Proofs Require Import MorganProofs.
@@ -1007,4 +1015,301 @@ Proof.
   split; [intros n m H; cbn in H; intuition (try discriminate); match goal with E : TBond _ _ = TBond _ _ |- _ => injection E as <- <- end; vm_compute; reflexivity|].
   split; [intros n m c _ H; cbn in H; destruct H|].
   split; vm_compute; reflexivity.
+Qed.
+
+(* ==================================================================================================== *)
+(* 13. one component, all components, the text: conditional on the token functions; unconditional without stereo marks *)
+(* two writer states that describe the same progress on the two sides (the atom set of the renumbered side in any order) *)
+Definition wstate_rel (s : Z -> Z) (a b : wstate) : Prop :=
+  Permutation (map s (ws_atoms a)) (ws_atoms b) /\ ws_seen b = ren_labels s (ws_seen a) /\ ws_cycle b = ws_cycle a /\
+  ws_casted b = ws_casted a /\ ws_heap b = ws_heap a /\ ws_out b = map (ren_otok s) (ws_out a) /\
+  ws_order b = map s (ws_order a) /\ ws_vb b = ren_pairs s (ws_vb a).
+Definition wres_rel (s : Z -> Z) (a b : pyres wstate) : Prop :=
+  match a, b with Ok x, Ok y => wstate_rel s x y | Err e, Err e' => e = e' | _, _ => False end.
+
+Lemma filter_perm_map {A} (p : A -> bool) l l' : Permutation l l' -> Permutation (filter p l) (filter p l').
+Proof. apply filter_perm. Qed.
+
+Section ComponentRen.
+  Variable g : mol.
+  Variable s w w' tb tb' : Z -> Z.
+  Variable o : opts.
+  Variable tabs tabs' : stabs.
+  Hypothesis Hwf : wf_mol g = true.
+  Hypothesis s_inj : forall x y, s x = s y -> x = y.
+  Hypothesis w_inj : inj_on (ids g) w.
+  Hypothesis w_ren : forall n, In n (ids g) -> w' (s n) = w n.
+  (* the token functions of the two sides agree (for every neighbour table) *)
+  Hypothesis Hfat : forall visited n, format_atom (ren_mol s g) o tabs' (s n) (ren_vis s visited) = format_atom g o tabs n visited.
+  Hypothesis Hfa : forall visited n m,
+    format_bond (ren_mol s g) o (ct_map (ren_mol s g) tabs' (ren_vis s visited)) (s n) (s m) = format_bond g o (ct_map g tabs visited) n m.
+
+  Lemma filter_not_visited visited l :
+    filter (fun n => negb (zhas (ren_vis s visited) n)) (map s l) = map s (filter (fun n => negb (zhas visited n)) l).
+  Proof.
+    induction l as [|x l IH]; cbn; [reflexivity|]. unfold ren_vis at 1. rewrite (zhas_renG s s_inj (map s)).
+    destruct (zhas visited x); cbn; fold (ren_vis s visited); rewrite IH; reflexivity.
+  Qed.
+
+  Theorem component_ren st st' : incl (ws_atoms st) (ids g) -> wstate_rel s st st' ->
+    wres_rel s (component g w tb o tabs (ids g) st) (component (ren_mol s g) w' tb' o tabs' (map s (ids g)) st').
+  Proof.
+    intros Hi [Hp [Hse [Hcy [Hca [Hhe [Hout [Hord Hvb]]]]]]]. unfold component.
+    rewrite (traverse_ren g s w w' tb tb' o Hwf s_inj w_inj w_ren st st' Hi Hp Hse Hcy).
+    destruct (traverse g w tb o (ids g) st) as [t|e]; cbn [ren_tres wres_rel]; [|reflexivity].
+    rewrite (flatten_ren s s_inj g t).
+    destruct (flatten g t) as [smi|e]; cbn [ren_toks wres_rel]; [|reflexivity].
+    unfold ren_traversal, ren_dfs. cbn [tr_dfs tr_seen tr_start ds_tokens ds_edges ds_visited ds_cycle].
+    rewrite (ring_positions_ren s s_inj), Hca, Hhe, (number_atoms_ren s s_inj).
+    destruct (number_atoms (ds_tokens (tr_dfs t)) _ _ (ws_casted st) (ws_heap st)) as [[casted heap]|e]; cbn [wres_rel]; [|reflexivity].
+    rewrite (order_neighbours_ren s s_inj).
+    destruct (order_neighbours smi casted (ds_edges (tr_dfs t)) (ds_tokens (tr_dfs t)) (ds_visited (tr_dfs t))) as [tokens visited] eqn:E.
+    cbn [fst snd]. rewrite Hvb.
+    rewrite (emit_ren s s_inj o (format_bond g o (ct_map g tabs visited))
+                      (format_bond (ren_mol s g) o (ct_map (ren_mol s g) tabs' (ren_vis s visited)))
+                      (fun n => format_atom g o tabs n visited) (fun n => format_atom (ren_mol s g) o tabs' n (ren_vis s visited)))
+      by (intros; first [apply Hfat | apply Hfa]).
+    destruct (emit o _ _ smi tokens casted (ws_vb st)) as [[[out ord] vb]|e]; cbn [ren_emit wres_rel]; [|reflexivity].
+    assert (Permutation (map s (filter (fun n => negb (zhas visited n)) (ws_atoms st)))
+                        (filter (fun n => negb (zhas (ren_vis s visited) n)) (ws_atoms st'))) as Hrest.
+    { rewrite <- filter_not_visited. apply filter_perm. exact Hp. }
+    unfold wstate_rel. cbn [ws_atoms ws_seen ws_cycle ws_casted ws_heap ws_out ws_order ws_vb].
+    repeat split; try reflexivity.
+    - exact Hrest.
+    - rewrite Hout, !map_app. f_equal. f_equal.
+      destruct (filter (fun n => negb (zhas visited n)) (ws_atoms st)) as [|r0 rr];
+        destruct (filter (fun n => negb (zhas (ren_vis s visited) n)) (ws_atoms st')) as [|q0 qq]; try reflexivity.
+      + apply Permutation_nil in Hrest. discriminate.
+      + apply Permutation_sym, Permutation_nil in Hrest. discriminate.
+    - rewrite Hord, map_app. reflexivity.
+  Qed.
+End ComponentRen.
+
+Section TextRen.
+  Variable g : mol.
+  Variable s w w' tb tb' : Z -> Z.
+  Variable o : opts.
+  Variable tabs tabs' : stabs.
+  Hypothesis Hwf : wf_mol g = true.
+  Hypothesis s_inj : forall x y, s x = s y -> x = y.
+  Hypothesis w_inj : inj_on (ids g) w.
+  Hypothesis w_ren : forall n, In n (ids g) -> w' (s n) = w n.
+  Hypothesis Hfat : forall visited n, format_atom (ren_mol s g) o tabs' (s n) (ren_vis s visited) = format_atom g o tabs n visited.
+  Hypothesis Hfa : forall visited n m,
+    format_bond (ren_mol s g) o (ct_map (ren_mol s g) tabs' (ren_vis s visited)) (s n) (s m) = format_bond g o (ct_map g tabs visited) n m.
+
+  Lemma component_atoms_incl st st2 : component g w tb o tabs (ids g) st = Ok st2 -> incl (ws_atoms st2) (ws_atoms st).
+  Proof.
+    unfold component. destruct (traverse g w tb o (ids g) st) as [t|]; [|discriminate].
+    destruct (flatten g t) as [smi|]; [|discriminate].
+    destruct (number_atoms _ _ _ _ _) as [[casted heap]|]; [|discriminate].
+    destruct (order_neighbours _ _ _ _ _) as [tokens visited].
+    destruct (emit _ _ _ _ _ _ _) as [[[out ord] vb]|]; [|discriminate].
+    intros [= <-]. cbn [ws_atoms]. intros x Hx. apply filter_In in Hx. apply Hx.
+  Qed.
+
+  Lemma components_ren fuel : forall st st', incl (ws_atoms st) (ids g) -> wstate_rel s st st' ->
+    wres_rel s (components g w tb o tabs fuel (ids g) st) (components (ren_mol s g) w' tb' o tabs' fuel (map s (ids g)) st').
+  Proof.
+    induction fuel as [|fuel IH]; intros st st' Hi Hrel; cbn [components]; [reflexivity|].
+    pose proof (component_ren g s w w' tb tb' o tabs tabs' Hwf s_inj w_inj w_ren Hfat Hfa st st' Hi Hrel) as Hc.
+    destruct (component g w tb o tabs (ids g) st) as [a|e] eqn:Ea;
+      destruct (component (ren_mol s g) w' tb' o tabs' (map s (ids g)) st') as [b|e'] eqn:Eb; cbn [wres_rel] in Hc; try contradiction.
+    - pose proof Hc as [Hp _].
+      destruct (ws_atoms a) as [|a0 ar] eqn:Eaa; destruct (ws_atoms b) as [|b0 br] eqn:Ebb.
+      + exact Hc.
+      + apply Permutation_nil in Hp. discriminate.
+      + apply Permutation_sym, Permutation_nil in Hp. discriminate.
+      + apply IH; [|exact Hc]. intros x Hx. apply Hi. apply (component_atoms_incl st a Ea). exact Hx.
+    - exact Hc.
+  Qed.
+
+  Lemma atom_of_renG n : atom_of (ren_mol s g) (s n) = atom_of g n.
+  Proof.
+    unfold atom_of, ren_mol. cbn [m_atoms]. rewrite (zget_renG s s_inj (fun a : atom => a)). destruct (zget (m_atoms g) n); reflexivity.
+  Qed.
+
+  Lemma radical_positions_ren ord : forall i, radical_positions (ren_mol s g) (map s ord) i = radical_positions g ord i.
+  Proof.
+    induction ord as [|m r IH]; intros i; cbn [map radical_positions]; [reflexivity|].
+    rewrite atom_of_renG, !IH. reflexivity.
+  Qed.
+
+  Lemma format_cxsmiles_ren ord : format_cxsmiles (ren_mol s g) (map s ord) = format_cxsmiles g ord.
+  Proof.
+    unfold format_cxsmiles. rewrite radical_positions_ren.
+    replace (existsb (fun na => a_rad (snd na)) (m_atoms (ren_mol s g))) with (existsb (fun na => a_rad (snd na)) (m_atoms g)); [reflexivity|].
+    unfold ren_mol. cbn [m_atoms]. induction (m_atoms g) as [|[k a] l IH]; cbn; [reflexivity|]. rewrite IH. reflexivity.
+  Qed.
+
+  (* Smiles._smiles + the CXSMILES suffix: the same text, the written order mapped by s *)
+  Theorem smiles_text_ren : smiles_text (ren_mol s g) w' tb' o tabs' = map_order s (smiles_text g w tb o tabs).
+  Proof.
+    assert (wstate_rel s (init_state g) (init_state (ren_mol s g))) as Hrel.
+    { unfold init_state, wstate_rel. cbn [ws_atoms ws_seen ws_cycle ws_casted ws_heap ws_out ws_order ws_vb].
+      rewrite ids_ren_mol. repeat split; reflexivity || apply Permutation_refl. }
+    pose proof (components_ren (S (n_atoms g)) (init_state g) (init_state (ren_mol s g)) (incl_refl _) Hrel) as Hc.
+    unfold smiles_text, smiles_tokens. rewrite ids_ren_mol, n_atoms_ren.
+    destruct (components g w tb o tabs (S (n_atoms g)) (ids g) (init_state g)) as [a|e];
+      destruct (components (ren_mol s g) w' tb' o tabs' (S (n_atoms g)) (map s (ids g)) (init_state (ren_mol s g))) as [b|e'];
+      cbn [wres_rel] in Hc; try contradiction.
+    - destruct Hc as [_ [_ [_ [_ [_ [Hout [Hord _]]]]]]].
+      destruct (ids g); [reflexivity|]. cbn [map]. rewrite Hout, Hord, spell_ren, format_cxsmiles_ren.
+      destruct (o_cx o); [destruct (format_cxsmiles g (ws_order a))|]; reflexivity.
+    - subst e'. destruct (ids g); reflexivity.
+  Qed.
+End TextRen.
+
+(* ---- the token functions without stereo marks and without atom-map numbers do not look at atom numbers ---- *)
+Section NoStereoFormat.
+  Variable g : mol.
+  Variable s : Z -> Z.
+  Variable o : opts.
+  Hypothesis s_inj : forall x y, s x = s y -> x = y.
+  Hypothesis Hst : o_stereo o = false.
+  Hypothesis Hmp : o_mapping o = false.
+
+  Lemma nbrs_renG n : nbrs (ren_mol s g) (s n) = map (fun mb => (s (fst mb), snd mb)) (nbrs g n).
+  Proof.
+    unfold nbrs, ren_mol, ren_adj. cbn [m_adj].
+    rewrite (zget_renG s s_inj (fun r : list (Z * bond) => map (fun mb => (s (fst mb), snd mb)) r)).
+    destruct (zget (m_adj g) n); reflexivity.
+  Qed.
+
+  Lemma hybridization_renG n : hybridization (ren_mol s g) (s n) = hybridization g n.
+  Proof.
+    unfold hybridization. rewrite nbrs_renG. generalize 1. induction (nbrs g n) as [|mb l IH]; intros h; cbn; [reflexivity|]. apply IH.
+  Qed.
+
+  Lemma no_plain_renG n : no_plain_neighbours (ren_mol s g) (s n) = no_plain_neighbours g n.
+  Proof.
+    unfold no_plain_neighbours. rewrite nbrs_renG. induction (nbrs g n) as [|mb l IH]; cbn; [reflexivity|]. rewrite IH. reflexivity.
+  Qed.
+
+  Lemma bond_of_renG n m : bond_of (ren_mol s g) (s n) (s m) = bond_of g n m.
+  Proof.
+    unfold bond_of. rewrite nbrs_renG. rewrite (zget_renG s s_inj (fun b : bond => b)). destruct (zget (nbrs g n) m); reflexivity.
+  Qed.
+
+  Lemma stereo_mark_off (g0 : mol) tabs0 n adj a : stereo_mark g0 o tabs0 n adj a = Ok EmptyString.
+  Proof. unfold stereo_mark. rewrite Hst. destruct (a_stereo a); reflexivity. Qed.
+
+  Lemma format_atom_nostereo tabs tabs' visited visited' n :
+    format_atom (ren_mol s g) o tabs' (s n) visited' = format_atom g o tabs n visited.
+  Proof.
+    unfold format_atom, atom_fields. rewrite (atom_of_renG g s s_inj). destruct (atom_of g n) as [a|]; [|reflexivity].
+    destruct (symbol_of_num (a_num a)) as [sym|]; [|reflexivity].
+    rewrite !stereo_mark_off, Hmp, hybridization_renG, no_plain_renG. reflexivity.
+  Qed.
+
+  Lemma format_bond_nostereo ctm ctm' n m : format_bond (ren_mol s g) o ctm' (s n) (s m) = format_bond g o ctm n m.
+  Proof.
+    unfold format_bond. rewrite bond_of_renG, !hybridization_renG, Hst. reflexivity.
+  Qed.
+End NoStereoFormat.
+
+(* smiles_invariant_discrete for the stereo-free canonical string (format(mol, '!s') and every other option set without
+   stereo marks and atom-map numbers) under renumberings that keep the insertion orders (remap()), for any tie-break
+   priorities on the two sides and any stereo registries: the same text, the written order mapped by s *)
+Theorem smiles_invariant_discrete_nostereo (g : mol) (s w w' tb tb' : Z -> Z) (o : opts) (tabs tabs' : stabs) :
+  wf_mol g = true -> (forall x y, s x = s y -> x = y) -> inj_on (ids g) w -> (forall n, In n (ids g) -> w' (s n) = w n) ->
+  o_stereo o = false -> o_mapping o = false ->
+  smiles_text (ren_mol s g) w' tb' o tabs' = map_order s (smiles_text g w tb o tabs).
+Proof.
+  intros Hwf Hs Hw Hr Hst Hmp. apply smiles_text_ren; try assumption.
+  - intros visited n. apply format_atom_nostereo; assumption.
+  - intros visited n m. apply format_bond_nostereo; assumption.
+Qed.
+
+(* with the weights of the Morgan model: discrete classes of atoms_order make format(mol, '!s') invariant under remap() *)
+Theorem canonical_nostereo_string_invariant (h : list Z -> Z) (ring ring' : Z -> bool) (g : mol) (s tb tb' : Z -> Z) (o : opts)
+  (tabs tabs' : stabs) (l : labels) :
+  wf_mol g = true -> (forall x y, s x = s y -> x = y) -> (forall n, In n (ids g) -> ring' (s n) = ring n) ->
+  atoms_order h ring g = Ok l -> NoDup (map snd l) -> o_stereo o = false -> o_mapping o = false ->
+  exists l', atoms_order h ring' (ren_mol s g) = Ok l' /\
+             smiles_text (ren_mol s g) (lbl l') tb' o tabs' = map_order s (smiles_text g (lbl l) tb o tabs).
+Proof.
+  intros Hwf Hs Hr Hl Hd Hst Hmp. exists (ren_labels s l).
+  assert (inj_on (ids g) s) as Hs' by (intros x y _ _; apply Hs).
+  split.
+  - pose proof (atoms_order_equivariant h ring ring' g s Hwf Hs' Hr) as He. rewrite Hl in He. exact He.
+  - apply smiles_invariant_discrete_nostereo; try assumption.
+    + apply (w_inj_ids h ring g l Hwf Hl Hd).
+    + apply (w_ren_ids h ring g s l Hwf Hs' Hl).
+Qed.
+
+(* non-vacuity: ethanol, renumbered n -> 10 - n, weights = ranks of the Morgan model with the CPython hash, option set '!s' *)
+Definition exw_o : opts := opts_of_spec "!s".
+Theorem nostereo_example :
+  o_stereo exw_o = false /\ o_mapping exw_o = false /\
+  smiles_text ex_g (lbl exw_l) (fun n => n) exw_o no_stabs = Ok ("CCO"%string, [1; 2; 3]) /\
+  smiles_text (ren_mol ex_s ex_g) (lbl (ren_labels ex_s exw_l)) (fun n => - n) exw_o no_stabs = Ok ("CCO"%string, [9; 8; 7]).
+Proof. repeat split; vm_compute; reflexivity. Qed.
+
+(* ---- molecules that carry no stereo label: the default option set (str(mol)) as well ---- *)
+Definition no_stereo_labels (g : mol) : Prop :=
+  (forall n a, atom_of g n = Some a -> a_stereo a = None) /\ stereo_bond_atoms g = [].
+
+Section NoLabelFormat.
+  Variable g : mol.
+  Variable s : Z -> Z.
+  Variable o : opts.
+  Hypothesis s_inj : forall x y, s x = s y -> x = y.
+  Hypothesis Hnl : no_stereo_labels g.
+  Hypothesis Hmp : o_mapping o = false.
+
+  Lemma stereo_bond_atoms_ren : stereo_bond_atoms (ren_mol s g) = map s (stereo_bond_atoms g).
+  Proof.
+    unfold stereo_bond_atoms, ren_mol, ren_adj. cbn [m_adj]. induction (m_adj g) as [|[n row] adj IH]; cbn [map filter fst snd]; [reflexivity|].
+    assert (forall r : list (Z * bond), existsb (fun mb : Z * bond => match b_stereo (snd mb) with Some _ => true | None => false end)
+                                            (map (fun mb : Z * bond => (s (fst mb), snd mb)) r) =
+                                   existsb (fun mb : Z * bond => match b_stereo (snd mb) with Some _ => true | None => false end) r) as Hex
+      by (intros r; induction r as [|mb r IHr]; cbn; [reflexivity | rewrite IHr; reflexivity]).
+    rewrite Hex.
+    destruct (existsb (fun mb : Z * bond => match b_stereo (snd mb) with Some _ => true | None => false end) row);
+      cbn [map fst]; rewrite IH; reflexivity.
+  Qed.
+
+  Lemma ct_map_nolabels tabs v : ct_map g tabs v = Ok [].
+  Proof. unfold ct_map. destruct Hnl as [_ ->]. reflexivity. Qed.
+  Lemma ct_map_nolabels_ren tabs v : ct_map (ren_mol s g) tabs v = Ok [].
+  Proof. unfold ct_map. rewrite stereo_bond_atoms_ren. destruct Hnl as [_ ->]. reflexivity. Qed.
+
+  Lemma format_atom_nolabels tabs tabs' visited visited' n :
+    format_atom (ren_mol s g) o tabs' (s n) visited' = format_atom g o tabs n visited.
+  Proof.
+    unfold format_atom, atom_fields. rewrite (atom_of_renG g s s_inj). destruct (atom_of g n) as [a|] eqn:Ea; [|reflexivity].
+    destruct (symbol_of_num (a_num a)) as [sym|]; [|reflexivity].
+    assert (forall g0 tabs0 n0 adj, stereo_mark g0 o tabs0 n0 adj a = Ok EmptyString) as Hsm
+      by (intros; unfold stereo_mark; destruct Hnl as [H _]; rewrite (H n a Ea); reflexivity).
+    rewrite !Hsm, Hmp, (hybridization_renG g s s_inj), (no_plain_renG g s s_inj). reflexivity.
+  Qed.
+
+  Lemma format_bond_nolabels tabs tabs' v v' n m :
+    format_bond (ren_mol s g) o (ct_map (ren_mol s g) tabs' v') (s n) (s m) = format_bond g o (ct_map g tabs v) n m.
+  Proof.
+    unfold format_bond. rewrite (bond_of_renG g s s_inj), !(hybridization_renG g s s_inj), ct_map_nolabels, ct_map_nolabels_ren. reflexivity.
+  Qed.
+End NoLabelFormat.
+
+(* smiles_invariant_discrete for molecules without stereo labels, every option set without atom-map numbers (str(mol) too) *)
+Theorem smiles_invariant_discrete_unlabelled (g : mol) (s w w' tb tb' : Z -> Z) (o : opts) (tabs tabs' : stabs) :
+  wf_mol g = true -> (forall x y, s x = s y -> x = y) -> inj_on (ids g) w -> (forall n, In n (ids g) -> w' (s n) = w n) ->
+  no_stereo_labels g -> o_mapping o = false ->
+  smiles_text (ren_mol s g) w' tb' o tabs' = map_order s (smiles_text g w tb o tabs).
+Proof.
+  intros Hwf Hs Hw Hr Hnl Hmp. apply smiles_text_ren; try assumption.
+  - intros visited n. apply format_atom_nolabels; assumption.
+  - intros visited n m. apply format_bond_nolabels; assumption.
+Qed.
+
+Theorem unlabelled_example :
+  no_stereo_labels ex_g /\ o_mapping default_opts = false /\
+  smiles_text ex_g (lbl exw_l) (fun n => n) default_opts no_stabs = Ok ("CCO"%string, [1; 2; 3]) /\
+  smiles_text (ren_mol ex_s ex_g) (lbl (ren_labels ex_s exw_l)) (fun n => - n) default_opts no_stabs = Ok ("CCO"%string, [9; 8; 7]).
+Proof.
+  split; [split; [|vm_compute; reflexivity]|repeat split; vm_compute; reflexivity].
+  intros n a H. unfold atom_of, ex_g in H. cbn [m_atoms zget] in H.
+  destruct (n =? 1); [injection H as <-; reflexivity|]. destruct (n =? 2); [injection H as <-; reflexivity|].
+  destruct (n =? 3); [injection H as <-; reflexivity | discriminate].
 Qed.
